@@ -94,6 +94,9 @@ var c25Shapes = []string{
 	`fmt.Println("x", (@A), [2]int{@A, @B})`,
 	`fmt.Println(<-func() chan int { c := make(chan int, 1); c <- @A; return c }())`,
 	`go func() {}()`,
+	`twice(func(x int) int { return x }, @A)
+	func(f func()) { f() }(func() { return })
+	func(f func()) { f() }(func() {})`,
 	`fmt.Println(@A, /* inline */ @B) // trailing`,
 	`fmt.Printf("%c%c\n", 'a'+rune(@A%5), '$')`,
 	// names declared in an if/for/switch header shadow in every branch of the statement
